@@ -368,6 +368,136 @@ def rule_E(ck, units, floor=3):
                       '(entries land in the wrong block column or are dropped)' % (f.full[:90], f.where(c), show(arg)[:40]))
 
 
+BSEARCH = ('std::lower_bound', 'std::upper_bound', 'std::binary_search', 'std::equal_range')
+
+
+def rule_F(ck, units, control):
+    """a binary search over the column indices of a row is only correct on sorted rows; matrices that come from the user, from SpGEMM with
+    sort = false or from block extraction are not sorted unless sort_rows was applied"""
+    ck.rule('F.binary-search-sorted', 'std::lower_bound / upper_bound / binary_search / equal_range over the column indices of a CRS row occurs only on a matrix that was passed to sort_rows '
+                                      'earlier in the same function (today the library has no such search: the rule is kept alive by a positive control)', 0)
+    found_control = False
+    for u in list(units.values()) + [control]:
+        an = Analyzer([u])
+        for f in u.funcs:
+            if f.body is None:
+                continue
+            for c in f.calls():
+                if (c.get('f') or '').split('<')[0] not in BSEARCH or not c.get('a'):
+                    continue
+                first = unwrap(c['a'][0])
+                over_col = any(x['k'] == 'mem' and x['n'] == 'col' for x in walk(first))
+                if not over_col:
+                    # through a local pointer / iterator initialised from X.col
+                    for x in walk(first):
+                        if x['k'] == 'ref' and f.decl(x['d']).get('k') == 'local':
+                            for n in f.nodes.values():
+                                if n['k'] == 'decl':
+                                    for v in n['v']:
+                                        if v['d'] == x['d'] and v.get('init') is not None and any(y['k'] == 'mem' and y['n'] == 'col' for y in walk(v['init'])):
+                                            over_col = True
+                if not over_col:
+                    continue
+                mats = [x for x in walk(first) if x['k'] == 'mem' and x['n'] == 'col']
+                root = an.root_of_expr(f, mats[0]['b']) if mats and mats[0].get('b') is not None else None
+                sorts = [s_ for s_ in f.calls() if (s_.get('f') or '').endswith('sort_rows') and s_['i'] < c['i'] and s_.get('a') and an.root_of_expr(f, s_['a'][0]) == root and root is not None]
+                if f.q.startswith('verif_control::'):
+                    found_control = found_control or not sorts
+                    continue
+                if not f.rel().startswith('amgcl/'):
+                    continue
+                ck.ob('F.binary-search-sorted', '%s|%s' % (f.rel(), f.q), f.where(c), bool(sorts),
+                      '' if sorts else 'in %s: %s at %s searches the column indices of a row of `%s`, which was not sorted in this function: on rows in arbitrary order the entry is not found' % (
+                          f.full[:80], c['f'].split('<')[0], f.where(c), show(mats[0]['b'])[:30] if mats else '?'))
+    if not found_control:
+        ck.brk('F.binary-search-sorted: the positive control verif_control::has_entry (tus/controls.cpp) was not recognised - the rule is blind')
+
+
+def rule_G(ck, control):
+    """moving a CRS matrix (or swapping numa_vectors) hands over every data member - in particular own_data together with the three arrays:
+    otherwise borrowed (zero-copy) arrays end up in an object that believes it owns them, and delete[] is called on user memory"""
+    ck.rule('G.move-transfers-all', 'the move constructor / move assignment of backend::crs and numa_vector::swap take every data member of the class from the other object '
+                                    '(ptr, col, val and own_data travel together)', 3)
+    u = control
+    recs = {r['q']: r for r in u.records}
+    done = set()
+    for f in u.funcs:
+        if f.body is None or not f.cls or f.cls not in ('amgcl::backend::crs', 'amgcl::backend::numa_vector') or not f.params:
+            continue
+        name = f.q.split('::')[-1]
+        pt = u.type(f.decl(f.params[0]).get('t')) or ''
+        is_move = ('&&' in pt) and (f.j.get('ctor') or name == 'operator=')
+        is_swap = name == 'swap' and len(f.params) == 1
+        if not (is_move or is_swap):
+            continue
+        key = '%s::%s' % (f.cls, 'move-ctor' if f.j.get('ctor') else name)
+        if key in done:
+            continue
+        done.add(key)
+        rec = recs.get(f.cls) or next((r for q, r in recs.items() if q.startswith(f.cls)), None)
+        fields = [x['n'] for x in (rec or {}).get('fields', []) if not x.get('static')]
+        other = f.params[0]
+        mentioned = set()
+        roots = [f.body] + [i['e'] for i in f.inits if ir.is_node(i.get('e'))]
+        for r in roots:
+            for n in walk(r):
+                if n['k'] == 'mem' and n.get('b') is not None and unwrap(n['b'])['k'] == 'ref' and unwrap(n['b'])['d'] == other:
+                    mentioned.add(n['n'])
+        missing = [x for x in fields if x not in mentioned]
+        ck.ob('G.move-transfers-all', key, f.where(), bool(fields) and not missing,
+              '' if (fields and not missing) else ('record layout not found' if not fields else '%s does not take the member(s) %s from the other object: the arrays change hands without %s' % (
+                  key, missing, 'their ownership flag' if 'own_data' in missing else 'them')))
+
+
+DIMS = ('rows', 'cols', 'nonzeros')
+SQUARE_BY_CONCEPT = {('amgcl::adapter::matrix_builder', 'cols'): 'the RowBuilder concept provides rows() and nonzeros() only: a builder describes a square matrix, cols() is its row count by definition'}
+
+
+def rule_H(ck, units):
+    """adapters describe the same operator: the member / trait that reports a dimension forwards to the same dimension of what it wraps"""
+    ck.rule('H.dimension-forwarding', 'in every matrix adapter (amgcl::adapter::*, the rows_impl / cols_impl / nonzeros_impl traits) a function that reports rows / cols / nonzeros and asks '
+                                      'the wrapped matrix for a dimension asks for the dimension of the same name', 6)
+    done = set()
+    for u in units.values():
+        for f in u.funcs:
+            if f.body is None or not f.rel().startswith('amgcl/'):
+                continue
+            name = f.q.split('::')[-1]
+            own = None
+            if name in DIMS and f.cls and f.cls.startswith('amgcl::adapter::'):
+                own = name
+            elif name == 'get' and f.cls and f.cls.startswith('amgcl::backend::') and f.cls.split('::')[-1] in tuple(d + '_impl' for d in DIMS):
+                own = f.cls.split('::')[-1][:-5]
+            if own is None:
+                continue
+            asked = []
+            for c in f.calls():
+                nm = None
+                if (c.get('f') or '') in tuple('amgcl::backend::' + d for d in DIMS):
+                    nm = c['f'].split('::')[-1]
+                elif c.get('m') in DIMS and c.get('obj') is not None:
+                    nm = c['m']
+                if nm is not None:
+                    asked.append((c, nm))
+            for x in walk(f.body):
+                if x['k'] == 'mem' and x['n'] in ('nrows', 'ncols', 'nnz') and x.get('b') is not None and unwrap(x['b'])['k'] != 'this':
+                    asked.append((x, {'nrows': 'rows', 'ncols': 'cols', 'nnz': 'nonzeros'}[x['n']]))
+            if not asked:
+                continue
+            key = '%s|%s' % (f.cls, own)
+            if key in done:
+                continue
+            done.add(key)
+            bad = [(c, nm) for c, nm in asked if nm != own]
+            # nonzeros may be estimated from rows * something; only an exact mismatch of rows <-> cols is decided
+            bad = [(c, nm) for c, nm in bad if {nm, own} == {'rows', 'cols'} and not any(n2 == own for _, n2 in asked)]
+            if (f.cls, own) in SQUARE_BY_CONCEPT:
+                ck.ob('H.dimension-forwarding', key, f.where(), True, SQUARE_BY_CONCEPT[(f.cls, own)], trivial=True)
+                continue
+            ck.ob('H.dimension-forwarding', key, f.where(bad[0][0]) if bad else f.where(), not bad,
+                  '' if not bad else '%s::%s() reports the number of %s of the wrapped matrix (at %s)' % (f.cls, own if name != 'get' else 'get', bad[0][1], f.where(bad[0][0])))
+
+
 def rule_E_adapter(ck, units):
     """the adapter itself: its row iterator gathers a block by advancing each scalar row's cursor while col < end of the current block
     column - correct only for sorted rows - and the adapter neither sorts nor checks its input"""
@@ -402,5 +532,9 @@ def main(tier):
     rule_D(ck, units)
     rule_E(ck, units, floor=2)
     rule_E_adapter(ck, units)
+    cu = ir.run_units([dict(name='controls', src=os.path.join(T, 'controls.cpp'))], 'C17c')
+    rule_F(ck, units, cu['controls'])
+    rule_G(ck, cu['controls'])
+    rule_H(ck, units)
     ck.assumptions += ['that adapters expose the same entries (rows/cols/nonzeros, spmv agreement) and the algebra of reorder / scaled_problem are not decided']
     return ck.finish()
